@@ -16,7 +16,7 @@ type c05 struct{ base }
 
 func init() {
 	runner.Register(&c05{base{id: "C05", level: "exploration",
-		rule: "per case: a table (hash+range, 2 GSIs, 1 LSI) holding 0-5 bystander items and a target key that is present or absent (in a third of the cases the target and one bystander are one of 783 key pairs that collide under a plausible-but-wrong composite-key encoding); op in {PutItem, UpdateItem, DeleteItem} with a condition (existence guards, value comparisons, compound) chosen so that its truth on some bystander is the OPPOSITE of its truth on the target whenever possible. Oracle: model condition on the target (or empty) item; a refused write must leave the full observation (every key, base scan, every index scan, counts) byte-identical; ConditionalCheckFailed.Item (SDK v2 UpdateItem with ALL_OLD) must equal the stored item. non-trivial = truth differs between target and >=1 bystander (or table is empty / target absent with bystanders present); distinct by (adapter, op, target present?, condition skeleton, truth on target).",
+		rule: "per case: a table (hash+range, 2 GSIs, 1 LSI) holding 0-5 bystander items and a target key that is present or absent (in a third of the cases the target and one bystander are one of 783 key pairs that collide under a plausible-but-wrong composite-key encoding); op in {PutItem, UpdateItem, DeleteItem} with a condition (existence guards, value comparisons, compound) chosen so that its truth on some bystander is the OPPOSITE of its truth on the target whenever possible. Oracle: model condition on the target (or empty) item; a refused write must leave the full observation (every key, base scan, every index scan, counts) byte-identical; ConditionalCheckFailed.Item (SDK v2 UpdateItem with ALL_OLD) must equal the stored item. non-trivial = truth differs between target and >=1 bystander (or table is empty / target absent with bystanders present); distinct by (adapter, op, target present?, condition skeleton, truth on target). Guards include one-member IN over flags / null markers / sets / documents and value-first comparisons at equality.",
 		assumptions: commonAssumptions}})
 }
 
